@@ -2,7 +2,7 @@
    Evaluated either by vm_compute inside coqc or by the OCaml program extracted from this file. *)
 From Coq Require Import ZArith List Bool String Ascii.
 From Coq.Strings Require Import Byte.
-From CP Require Import Core.Bytes Core.Result Core.Show Prim.Int Prim.Mpint Prim.Timestamp Base.Enum Base.Array Frame.LVFrame Frame.Units Frame.Entry Reader.Reader Spec.PL Spec.TlsSpec Spec.Ja3 Tls.Ja3Model.
+From CP Require Import Core.Bytes Core.Result Core.Show Prim.Int Prim.Mpint Prim.Timestamp Base.Enum Base.Array Frame.LVFrame Frame.Units Frame.Entry Reader.Reader Spec.PL Spec.TlsSpec Spec.Ja3 Tls.Ja3Model Spec.KeyTag Spec.DnsSpec Dns.KeyTag Spec.SshSpec Ssh.Record.
 From CPGen Require Import Tables.
 Import ListNotations.
 Local Open Scope string_scope.
@@ -170,8 +170,36 @@ Definition show_ch (h : client_hello) : string :=
   ++ (if memzb FALLBACK_SCSV (ch_suites h) then "1" else "0") ++ " " ++ (if memzb EMPTY_RENEGOTIATION_INFO_SCSV (ch_suites h) then "1" else "0") ++ " "
   ++ show_zs (ch_compressions h) ++ " " ++ show_exts (ch_extensions h).
 
+Definition namelists_of_string (s : string) : list (list bytes) := map hexlist_of_string (split_on "|" s "").
+Definition show_names (l : list bytes) : string := match l with [] => "-" | _ => String.concat "," (map hex_of_bytes l) end.
+Definition show_kex (k : bytes * list (list bytes) * Z * Z) : string :=
+  let '(cookie, ls, f, res) := k in
+  hex_of_bytes cookie ++ " " ++ String.concat "|" (map show_names ls) ++ " " ++ string_of_Z f ++ " " ++ string_of_Z res.
+
 Definition run_words (ws : list string) : string :=
   match ws with
+  | ["sshpad"; l] => "OK " ++ string_of_Z (padding_length (z_of_string l)) ++ " " ++ string_of_Z (packet_length (z_of_string l))
+  | ["mpintspec"; z] => "OK " ++ hex_of_bytes (enc_mpint (z_of_string z))
+  | ["kexenc"; cookie; lists; f; res] =>
+      show_opt (enc_kexinit (bytes_of_hex cookie) (namelists_of_string lists) (String.eqb f "1") (z_of_string res))
+  | ["kexdec"; h] => match dec_kexinit (bytes_of_hex h) with Some k => "OK " ++ show_kex k | None => "NONE" end
+  | ["hasshpre"; h; side] => match dec_kexinit (bytes_of_hex h) with
+                             | Some (_, ls, _, _) => "OK " ++ hex_of_bytes (hassh_text ls (String.eqb side "s"))
+                             | None => "NONE" end
+  | ["rsablob"; e; n] => "OK " ++ hex_of_bytes (enc_rsa_blob (z_of_string e) (z_of_string n))
+  | ["dssblob"; p; q; g; y] => "OK " ++ hex_of_bytes (enc_dss_blob (z_of_string p) (z_of_string q) (z_of_string g) (z_of_string y))
+  | ["edblob"; k] => "OK " ++ hex_of_bytes (enc_ed25519_blob (bytes_of_hex k))
+  | ["keytag"; h] => "OK " ++ string_of_Z (key_tag (bytes_of_hex h))
+  | ["keytagref"; h] => "OK " ++ string_of_Z (rfc4034_keytag (bytes_of_hex h))
+  | ["keytag1"; m] => "OK " ++ string_of_Z (key_tag_alg1 (z_of_string m))
+  | ["dsenc"; kt; a; d; dg] => "OK " ++ hex_of_bytes (enc_ds (z_of_string kt) (z_of_string a) (z_of_string d) (hex_or_empty dg))
+  | ["mxenc"; pref; name] => show_opt (enc_mx (z_of_string pref) (hexlist_of_string name))
+  | ["nameenc"; name] => show_opt (enc_labels (hexlist_of_string name))
+  | ["txtenc"; h] => show_opt (enc_txt (hex_or_empty h))
+  | ["rrsigenc"; ty; alg; labels; ttl; ex; inc; kt; name; sig] =>
+      show_opt (enc_rrsig (z_of_string ty) (z_of_string alg) (z_of_string labels) (z_of_string ttl) (z_of_string ex) (z_of_string inc)
+                          (z_of_string kt) (hexlist_of_string name) (hex_or_empty sig))
+  | ["dnskeyrsaenc"; flags; alg; e; m] => "OK " ++ hex_of_bytes (enc_dnskey (z_of_string flags) (z_of_string alg) (enc_rsa_key (z_of_string e) (bytes_of_hex m)))
   | ["chenc"; ver; rnd; sid; suites; comps; exts] =>
       show_opt (enc_client_hello {| ch_version := z_of_string ver; ch_random := bytes_of_hex rnd; ch_session_id := hex_or_empty sid;
                                     ch_suites := zlist_of_string suites; ch_compressions := zlist_of_string comps; ch_extensions := exts_of_string exts |})
